@@ -122,3 +122,40 @@ Theorem ban_only_refuses : forall jsc_len enum_len files banned fuel s,
   meets_banned jsc_len enum_len files banned s.
 Proof. exact ban_only_refuses_lemma. Qed.
 Print Assumptions ban_only_refuses.
+
+(* ---- the ban is tested where a keyword is READ, in every file (proofs/CoreMoreProofs.v) ----
+   Vocabulary:
+     reads_unbanned jsc enum files banned s0 s
+                      the run WITHOUT the option comes from s0 to s by iterations of scanProject's
+                      loops, and in no state before s is the next lexeme a keyword of a kind in
+                      `banned`: a keyword of a banned kind read at s is the FIRST one in reading order
+     init_state root content   the scan of the project starts: root file, empty scanner stack
+   The state s is ANY state so reached: it may read the root file or a file included at any depth
+   (cs_stack s = the suspended includers), inside a parenthesised MACRO body or not (the scan does
+   not look at that), and k is any kind (MACRO, PASTE, INCLUDE, ...).  Then, for every fuel beyond
+   the number of iterations made, the whole scan ends with 'not allowed' at that keyword, in the
+   file s reads, with the include trace of that file -- provided, as in ban_diagnostic_at_first,
+   that the directive read just before finds its place and the keyword is not a JSIGHT inside an
+   included file.  And the run goes no further than s: every state the scan reaches lies on the
+   way to s, so no INCLUDE standing after the keyword in reading order is entered.
+   Example on a project of four files (INFO in the body of a never-pasted MACRO two levels down):
+   CoreMoreProofs.ex_ban_first_in_reading_order. *)
+From JV.proofs Require Import CoreMoreProofs.
+
+Theorem ban_first_in_reading_order : forall jsc_len enum_len files banned root content s x1 l kw k,
+  reads_unbanned jsc_len enum_len files banned (init_state root content) s ->
+  next_keyword jsc_len enum_len s x1 l kw k -> kind_in k banned = true ->
+  (exists s1, flush_cur (upd_sc s x1) = COk s1) ->
+  cs_stack s = [] \/ k <> KJsight ->
+  (exists n, forall fuel, (n < fuel)%nat ->
+     scan_project jsc_len enum_len files banned fuel (init_state root content) = CErr (ban_error s l k)) /\
+  (forall s', scan_reach jsc_len enum_len files banned (init_state root content) s' ->
+              scan_reach jsc_len enum_len files banned s' s).
+Proof. exact ban_first_in_reading_order_lemma. Qed.
+Print Assumptions ban_first_in_reading_order.
+
+(* up to the first keyword of a banned kind the run with the option is the run without it *)
+Theorem reads_unbanned_is_reached : forall jsc_len enum_len files banned s0 s,
+  reads_unbanned jsc_len enum_len files banned s0 s -> scan_reach jsc_len enum_len files banned s0 s.
+Proof. exact reads_unbanned_reach. Qed.
+Print Assumptions reads_unbanned_is_reached.
